@@ -344,6 +344,23 @@ extern "C" int getsockname(int fd, struct sockaddr *a, socklen_t *l)
   if (g_udpMode && t_in && takeInj("getsockname", c)) { errno = EBADF; ans("affail"); return -1; }
   return real(fd, a, l);
 }
+// UdpEngine::key() formats a peer address with getnameinfo(NI_NUMERICHOST|NI_NUMERICSERV); a failure (any EAI_* error) makes key()
+// return "" - since FC06a both users refuse it: readFromListener drops the datagram (error event, no session), viaDo closes the
+// id with Config / "peer address cannot be formatted".  Logged only on failure, like `affail`.
+extern "C" int getnameinfo(const struct sockaddr *sa, socklen_t salen, char *host, socklen_t hostlen, char *serv, socklen_t servlen, int flags)
+{
+  static auto real = realFn<int (*)(const struct sockaddr *, socklen_t, char *, socklen_t, char *, socklen_t, int)>("getnameinfo");
+  std::string c;
+  if (g_udpMode && t_in && takeInj("getnameinfo", c))
+  {
+    // readFromListener: key(from) directly follows the recvfrom that logged `dg<k>` - the pair is ONE environment answer, a datagram
+    // whose source cannot be formatted (`dgnokey`); viaDo: key(to) follows the resolution answers (`keyfail`)
+    if (!g_ans.empty() && g_ans.back().rfind("dg", 0) == 0) g_ans.back() = "dgnokey";
+    else ans("keyfail");
+    return EAI_FAIL;
+  }
+  return real(sa, salen, host, hostlen, serv, servlen, flags);
+}
 extern "C" int bind(int fd, const struct sockaddr *a, socklen_t l)
 {
   static auto real = realFn<int (*)(int, const struct sockaddr *, socklen_t)>("bind");
@@ -519,7 +536,7 @@ static std::string msgClass(const std::string &m)
     {"TLS requested but", "tlsRefused"}, {"SSL_set1_host failed", "sni"}, {"Injected TLS fault", "hook"},
     {"client write queue overflow", "overflow"}, {"listener write queue overflow", "lstOverflow"}, {"listener gone", "lstGone"},
     {"listener not found", "noListener"}, {"listener AF unknown", "afUnknown"}, {"AF mismatch", "afMismatch"},
-    {"session cap reached", "cap"}};
+    {"session cap reached", "cap"}, {"peer address cannot be formatted", "keyFail"}};
   for (auto &f : fixed)
     if (m.rfind(f.first, 0) == 0) return f.second;
   return "*";
@@ -1327,10 +1344,37 @@ static std::string scenario(const std::vector<std::string> &t)
 }
 
 // ============================================================================================ fan-out lockstep (Transport over the scripted engine)
+// The scripted engine, with an I/O-thread identity: while the harness plays the engine (it is inside fe->cbs.onClose / onData)
+// the calling thread IS the I/O thread, as in production where every engine callback runs there.  Transport::setReadMode and
+// receiveSync refuse to run on it (std::logic_error): a `mode` action scripted inside a close callback must be refused too.
+struct FanEngine : vh::FakeEngine
+{
+  std::thread::id io{};
+  std::thread::id getIoThreadId() const override { return io; }
+};
+struct IoScope
+{
+  FanEngine *e; std::thread::id saved;
+  explicit IoScope(FanEngine *x) : e(x), saved(x->io) { e->io = std::this_thread::get_id(); }
+  ~IoScope() { e->io = saved; }
+};
+static std::string hexOf(const std::uint8_t *p, std::size_t n)
+{
+  static const char *d = "0123456789abcdef";
+  std::string r;
+  for (std::size_t i = 0; i < n; ++i) { r += d[p[i] >> 4]; r += d[p[i] & 15]; }
+  return r;
+}
+static std::vector<std::uint8_t> unhex(const std::string &h)
+{
+  std::vector<std::uint8_t> r;
+  for (std::size_t i = 0; i + 1 < h.size(); i += 2) r.push_back(static_cast<std::uint8_t>(std::strtoul(h.substr(i, 2).c_str(), nullptr, 16)));
+  return r;
+}
 struct Fan
 {
   std::shared_ptr<Transport> tr;
-  vh::FakeEngine *fe = nullptr;
+  FanEngine *fe = nullptr;
   std::vector<std::string> ev;
   std::map<unsigned long long, ObserverId> obs;  // script observer number -> real ObserverId
   // actions to run from inside callbacks: key = where ("G" global close cb, "O<n>" observer n, "C<tag>" cleanup), one-shot
@@ -1394,7 +1438,53 @@ static void fanAct(const std::vector<std::string> &a, std::size_t i)
   {
     SessionId sid = std::strtoull(a[i + 1].c_str(), nullptr, 10);
     TransportErrorInfo info{TransportError::PeerClosed, "x"};
+    IoScope io(F.fe);
     F.fe->cbs.onClose(sid, info);
+  }
+  else if (v == "mode" && a.size() > i + 2)
+  {
+    // mode <sid> s|a|d : Transport::setReadMode; M<sid>+ / M<sid>- = return value, M<sid>! = std::logic_error (I/O thread)
+    SessionId sid = std::strtoull(a[i + 1].c_str(), nullptr, 10);
+    ReadMode m = a[i + 2] == "s" ? ReadMode::Sync : a[i + 2] == "d" ? ReadMode::Disabled : ReadMode::Async;
+    std::string r;
+    try { r = F.tr->setReadMode(sid, m) ? "+" : "-"; }
+    catch (const std::logic_error &) { r = "!"; }
+    F.ev.push_back("M" + std::to_string(sid) + r);
+  }
+  else if (v == "data" && a.size() > i + 2)
+  {
+    // data <sid> <hex> : the engine reports payload for sid (on the I/O thread)
+    SessionId sid = std::strtoull(a[i + 1].c_str(), nullptr, 10);
+    std::vector<std::uint8_t> b = unhex(a[i + 2]);
+    IoScope io(F.fe);
+    F.fe->cbs.onData(sid, iora::core::BufferView{b.data(), b.size()}, std::chrono::steady_clock::now());
+  }
+  else if ((v == "connect" || v == "accept") && a.size() > i + 1)
+  {
+    // connect <sid> | accept <sid> : the engine announces sid (on the I/O thread)
+    SessionId sid = std::strtoull(a[i + 1].c_str(), nullptr, 10);
+    TransportAddress addr{"127.0.0.1", 9};
+    IoScope io(F.fe);
+    if (v == "connect") F.fe->cbs.onConnect(sid, addr);
+    else F.fe->cbs.onAccept(sid, addr);
+  }
+  else if (v == "recv" && a.size() > i + 2)
+  {
+    // recv <sid> <n> : receiveSync with a zero timeout; R<sid>:<hex> | R<sid>:T (timeout) | R<sid>:P (PeerClosed) | R<sid>:! | R<sid>:E
+    SessionId sid = std::strtoull(a[i + 1].c_str(), nullptr, 10);
+    std::size_t n = std::strtoul(a[i + 2].c_str(), nullptr, 10);
+    std::vector<std::uint8_t> b(n ? n : 1);
+    std::size_t len = n;
+    std::string r;
+    try
+    {
+      auto res = F.tr->receiveSync(sid, b.data(), len, milliseconds(0));
+      if (res.isOk()) r = hexOf(b.data(), len);
+      else r = res.error().code == TransportError::Timeout ? "T" : res.error().code == TransportError::PeerClosed ? "P"
+             : res.error().code == TransportError::BufferOverflow ? "V" : "E";
+    }
+    catch (const std::logic_error &) { r = "!"; }
+    F.ev.push_back("R" + std::to_string(sid) + ":" + r);
   }
 }
 static std::string fanOp(const std::vector<std::string> &t)
@@ -1405,11 +1495,24 @@ static std::string fanOp(const std::vector<std::string> &t)
   {
     F = Fan{};
     g_fanCounter = 0;
-    auto fe = std::make_unique<vh::FakeEngine>();
+    auto fe = std::make_unique<FanEngine>();
     F.fe = fe.get();
     TransportConfig cfg;
+    // fan reset <globalClose> [<dataCb> [<maxSyncReceiveBuffer> <syncBufferGcThreshold>]] : the global data / connect / accept
+    // callbacks log what Transport delivers
+    if (t.size() > 5)
+    {
+      cfg.maxSyncReceiveBuffer = std::strtoul(t[4].c_str(), nullptr, 10);
+      cfg.syncBufferGcThreshold = std::strtoul(t[5].c_str(), nullptr, 10);
+    }
     F.tr = iora::network::test::TransportEngineInjector::withEngine(std::move(fe), cfg);
     bool global = t.size() > 2 && t[2] == "1";
+    bool dataCb = !(t.size() > 3 && t[3] == "0");
+    if (dataCb)
+      F.tr->onData([](SessionId s, iora::core::BufferView v, std::chrono::steady_clock::time_point)
+      { F.ev.push_back("D" + std::to_string(s) + ":" + hexOf(v.data(), v.size())); });
+    F.tr->onConnect([](SessionId s, const TransportAddress &) { F.ev.push_back("N" + std::to_string(s)); });
+    F.tr->onAccept([](SessionId s, const TransportAddress &) { F.ev.push_back("A" + std::to_string(s)); });
     if (global)
       F.tr->onClose([](SessionId s, const TransportErrorInfo &)
       {
